@@ -251,6 +251,21 @@ func runC15(r *Run, p *Prog) {
 						"on the accept-timeout edge with a non-zero connection counter a return is reachable before the next Accept: the service stops while a connection is open", witnessPos(p, w2)...)
 				}
 			}
+			// after a failed accept nothing sends the loop back to Accept before the error has been asked whether it
+			// is the deadline expiry (a retry policy for temporary errors placed first would swallow every expiry)
+			for _, b := range sf.Fn.Blocks {
+				for _, s := range b.Succs {
+					if !hasFact(T.edgeFactsOn(b, s), "NE", sf.AcceptEr, "nil") {
+						continue
+					}
+					again, w0 := reachFromBlockAvoid(sf.Fn, s, isAccept, nil, func(x, y *ssa.BasicBlock) bool {
+						fs := T.edgeFactsOn(x, y)
+						return timeoutFact(fs, true) || timeoutFact(fs, false)
+					})
+					r.Ob("I2", fn, "after a failed accept the loop accepts again only once the error was tested for being a timeout", p.InstrPos(b.Instrs[len(b.Instrs)-1]), !again,
+						"after a failed accept the loop can go back to Accept without having asked whether the error is the deadline expiry: the idle timeout is swallowed and the service never stops", witnessPos(p, w0)...)
+				}
+			}
 			// the timeout branch is decided by Timeout() of the accept error
 			ok, w := mustCross(T, sf.Fn, sf.Accept, func(in ssa.Instruction) bool {
 				ret, ok := in.(*ssa.Return)
